@@ -45,6 +45,18 @@ var c16Types = map[string]reflect.Type{
 	"error": reflect.TypeOf((*error)(nil)).Elem(), "MyErrPtr": reflect.TypeOf((*MyErr)(nil)), "Errno": reflect.TypeOf(Errno(0)), "ErrStruct": reflect.TypeOf(ErrStruct{}),
 	"chanerr": reflect.TypeOf((chan error)(nil)), "rchanerr": reflect.TypeOf((<-chan error)(nil)), "chanint": reflect.TypeOf((chan int)(nil)),
 	"func": reflect.TypeOf(func() {}),
+	// channels the statement's pool does not decide: element types that merely implement error, send-only direction, named channel types
+	"chanMyErr": reflect.TypeOf((chan *MyErr)(nil)), "chanErrno": reflect.TypeOf((chan Errno)(nil)), "wchanerr": reflect.TypeOf((chan<- error)(nil)),
+	"MyChan": reflect.TypeOf(MyChan(nil)), "MyRChan": reflect.TypeOf(MyRChan(nil)),
+}
+
+type (
+	MyChan  chan error
+	MyRChan <-chan error
+)
+
+func isLooseChan(name string) bool {
+	return name == "chanMyErr" || name == "chanErrno" || name == "wchanerr" || name == "MyChan" || name == "MyRChan"
 }
 
 var (
@@ -70,6 +82,7 @@ type c16Case struct {
 	Variadic bool     `json:"variadic,omitempty"` // the last parameter is ...T
 	Out      []string `json:"out"`
 	Fail     bool     `json:"fail,omitempty"` // the host function reports an error (when it can)
+	Reenter  bool     `json:"reenter,omitempty"`
 	Args     []mval   `json:"args"`
 }
 
@@ -116,12 +129,12 @@ func (c c16Case) registration() string {
 	}
 	allPlain := true
 	for _, o := range c.Out {
-		if isLooseErrorType(o) {
+		if isLooseErrorType(o) || isLooseChan(o) {
 			return "" // accepted by the library today; the statement's type pool does not decide
 		}
 	}
 	for _, p := range c.In {
-		if in(c16BadParam, p) || isLooseErrorType(p) || p == "rchanerr" {
+		if in(c16BadParam, p) || isLooseErrorType(p) || p == "rchanerr" || isLooseChan(p) {
 			return "refuse"
 		}
 		if !in(c16Predeclared, p) {
@@ -197,6 +210,9 @@ func cannedMval(name string) mval {
 
 type c16Probe struct {
 	calls [][]string // one entry per invocation: the received arguments, described
+	// reenter, when set, is run by the host function while it is being called: it registers more functions and
+	// commands on the runner that is calling it (module loaders do that)
+	reenter func()
 }
 
 func describeReceived(v reflect.Value) string {
@@ -255,6 +271,9 @@ func (c c16Case) build(p *c16Probe) any {
 			got = append(got, describeReceived(a))
 		}
 		p.calls = append(p.calls, got)
+		if p.reenter != nil {
+			p.reenter()
+		}
 		res := make([]reflect.Value, len(c.Out))
 		for i, t := range c.Out {
 			switch {
@@ -272,7 +291,21 @@ func (c c16Case) build(p *c16Probe) any {
 				res[i] = reflect.ValueOf(Errno(5))
 			case t == "ErrStruct":
 				res[i] = reflect.ValueOf(ErrStruct{7})
-			case t == "chanerr" || t == "rchanerr":
+			case t == "chanMyErr":
+				ch := make(chan *MyErr, 1)
+				if c.Fail {
+					ch <- &MyErr{"boom"}
+				} else {
+					ch <- nil
+				}
+				res[i] = reflect.ValueOf(ch)
+			case t == "chanErrno":
+				ch := make(chan Errno, 1)
+				ch <- Errno(5)
+				res[i] = reflect.ValueOf(ch)
+			case t == "wchanerr":
+				res[i] = reflect.ValueOf((chan<- error)(make(chan error, 1)))
+			case t == "chanerr" || t == "rchanerr" || t == "MyChan" || t == "MyRChan":
 				ch := make(chan error, 1)
 				if c.Fail {
 					ch <- errors.New("boom")
@@ -402,12 +435,26 @@ func runC16(c c16Case) Verdict {
 	}
 	// ---- the call
 	h := &host{dr: dr, storer: newRecStorer()}
-	ev := h.step(0)
-	for i := 0; ev.K == "wait" && i < 30000; i++ { // handlers without a channel run in a goroutine: completion is asynchronous
-		time.Sleep(time.Millisecond)
-		ev = h.step(0)
+	synchronous := c.Kind == "function" || (len(c.Out) == 1 && (c.Out[0] == "chanerr" || c.Out[0] == "rchanerr"))
+	if c.Reenter && synchronous {
+		// (handlers that the bridge runs on a goroutine of their own must not touch the runner: not done there)
+		probe.reenter = func() {
+			dr.AddFunction("late_function", func([]*variable.Value) (*variable.Value, error) { return variable.NewNumber(1), nil })
+			dr.AddCommand("late_command", func([]*variable.Value) <-chan error { ch := make(chan error, 1); ch <- nil; return ch })
+			_ = dr.ConvertAndAddFunction("late_converted", func(x int) int { return x })
+			_ = dr.ConvertAndAddCommand("late_converted_command", func(x int) {})
+		}
+		cls = append(cls, "registers-during-call")
 	}
 	desc := fmt.Sprintf("%s called as %s", sig, stmt)
+	ev := stepTimed(h, 0, 20*time.Second)
+	for i := 0; ev.K == "wait" && i < 30000; i++ { // handlers without a channel run in a goroutine: completion is asynchronous
+		time.Sleep(time.Millisecond)
+		ev = stepTimed(h, 0, 20*time.Second)
+	}
+	if ev.K == "hang" {
+		return failf("%s: Next did not return within 20 s", desc)
+	}
 	if ev.K == "panic" {
 		return failf("%s: the bridge panicked: %s", desc, ev.Text)
 	}
@@ -470,7 +517,7 @@ func runC16(c c16Case) Verdict {
 	}
 	// result
 	for _, o := range c.Out {
-		if isLooseErrorType(o) {
+		if isLooseErrorType(o) || isLooseChan(o) {
 			if ev.K != "err" && ev.K != "line" {
 				return failf("%s: unexpected outcome %s", desc, ev)
 			}
@@ -531,7 +578,7 @@ func genC16Arg(t *rapid.T, class byte) mval {
 
 func genC16(t *rapid.T) c16Case {
 	kind := rapid.SampledFrom([]string{"function", "function", "command", "command", "nonfunc"}).Draw(t, "kind")
-	c := c16Case{Kind: kind, Fail: rapid.IntRange(0, 2).Draw(t, "fail") == 0}
+	c := c16Case{Kind: kind, Fail: rapid.IntRange(0, 2).Draw(t, "fail") == 0, Reenter: rapid.IntRange(0, 3).Draw(t, "reenter") == 0}
 	if kind == "nonfunc" {
 		c.NonFunc = rapid.SampledFrom([]string{"nil", "int", "string", "struct", "slice"}).Draw(t, "nonfunc")
 		return c
@@ -549,7 +596,8 @@ func genC16(t *rapid.T) c16Case {
 		c.Out = rapid.SampledFrom([][]string{{}, {"int"}, {"float64"}, {"string"}, {"bool"}, {"error"}, {"int", "error"}, {"string", "error"}, {"MyInt"}, {"MyStr", "error"}, {"MyFloat"}, {"MyBool"},
 			{"int8"}, {"float32", "error"}, {"MyErrPtr"}, {"int", "MyErrPtr"}, {"Errno"}, {"string", "Errno"}, {"ErrStruct"}, {"int", "ErrStruct"}, {"struct"}, {"slice"}, {"int", "int"}, {"error", "int"}, {"int", "string", "error"}, {"chanerr"}, {"uint"}, {"iface"}, {"ptr", "error"}}).Draw(t, "out")
 	} else {
-		c.Out = rapid.SampledFrom([][]string{{}, {}, {"error"}, {"error"}, {"chanerr"}, {"rchanerr"}, {"MyErrPtr"}, {"Errno"}, {"ErrStruct"}, {"int"}, {"string"}, {"struct"}, {"chanint"}, {"error", "error"}, {"int", "error"}, {"ptr"}, {"func"}}).Draw(t, "out")
+		c.Out = rapid.SampledFrom([][]string{{}, {}, {"error"}, {"error"}, {"chanerr"}, {"rchanerr"}, {"MyErrPtr"}, {"Errno"}, {"ErrStruct"}, {"int"}, {"string"}, {"struct"}, {"chanint"}, {"error", "error"}, {"int", "error"}, {"ptr"}, {"func"},
+			{"chanMyErr"}, {"chanErrno"}, {"wchanerr"}, {"MyChan"}, {"MyRChan"}}).Draw(t, "out")
 	}
 	// script-side arguments: mostly fitting, sometimes off by count or type
 	nFixed := len(c.In)
@@ -641,7 +689,8 @@ func TestC16SignatureTable(t *testing.T) {
 					for _, shape := range []struct {
 						kind string
 						out  []string
-					}{{"function", []string{"int", "error"}}, {"function", []string{"MyStr"}}, {"command", []string{"error"}}, {"command", []string{}}} {
+					}{{"function", []string{"int", "error"}}, {"function", []string{"MyStr"}}, {"command", []string{"error"}}, {"command", []string{}}, {"command", []string{"chanerr"}},
+						{"command", []string{"chanMyErr"}}, {"command", []string{"MyRChan"}}, {"command", []string{"wchanerr"}}} {
 						if !yield(c16Case{Kind: shape.kind, In: in, Variadic: variadic, Out: shape.out, Args: args}) {
 							return
 						}
